@@ -125,6 +125,8 @@ class Fn:
                     return env['F:' + name]
                 if name in self.tr.static_consts:
                     return self.tr.static_consts[name]
+                if getattr(self, 'fields_as_params', False):
+                    return self._extra(name, n['type']['qualType'], env)
                 raise Unsupported(f'field {name} read before set')
             # param->field / param.field : becomes an extra parameter
             bn = self._base_name(base)
@@ -506,6 +508,98 @@ class Fn:
         return f'Definition {fname}{args} :=\n{body}.\n'
 
 
+class CopyFn(Fn):
+    """A function that validates sizes and then copies:  guards `if (c) return;` followed by memcpy / setData calls.
+    Translated to  option [copy source offset; copy length; data offset; data length]  (None = rejected), with the C integer
+    semantics of the expression translator (size_t arithmetic wraps mod 2^64); member fields read become parameters.
+    Every other statement (declarations of non-integers, other calls) is skipped: it cannot change the sizes."""
+
+    def strip(self, n):
+        while n.get('kind') in ('ImplicitCastExpr', 'ParenExpr', 'ExprWithCleanups', 'MaterializeTemporaryExpr', 'CXXBindTemporaryExpr'):
+            n = n['inner'][0]
+        return n
+
+    def callee_name(self, n):
+        c = self.strip(n['inner'][0])
+        if c.get('kind') == 'MemberExpr':
+            return c.get('name')
+        if c.get('kind') == 'DeclRefExpr':
+            return c.get('referencedDecl', {}).get('name')
+        return None
+
+    def ptr_offset(self, n, env):
+        """`ptr + e` -> e ; `ptr` -> 0"""
+        n = self.strip(n)
+        if n.get('kind') == 'BinaryOperator' and n.get('opcode') == '+':
+            a, b = n['inner']
+            if '*' in a['type']['qualType']:
+                return self.expr(b, env)
+            if '*' in b['type']['qualType']:
+                return self.expr(a, env)
+        if n.get('kind') in ('DeclRefExpr', 'CXXMemberCallExpr', 'MemberExpr'):
+            return '0'
+        raise Unsupported('copy source that is not `pointer + offset`')
+
+    def walk(self, lst, env, eff):
+        if not lst:
+            need = ('src_off', 'copy_len', 'data_off', 'data_len')
+            if any(k not in eff for k in need):
+                raise Unsupported('no memcpy / setData pair found')
+            return 'Some [' + '; '.join(eff[k] for k in need) + ']'
+        s, rest = lst[0], lst[1:]
+        k = s.get('kind')
+        if k == 'CompoundStmt':
+            return self.walk(s.get('inner', []) + rest, env, eff)
+        if k == 'ReturnStmt':
+            return 'None'
+        if k == 'IfStmt':
+            inner = s['inner']
+            c = self.expr(inner[0], env)
+            a = self.walk([inner[1]], env, dict(eff)) if self._has_kind(inner[1], ('ReturnStmt',)) else None
+            if a is None or len(inner) > 2:
+                raise Unsupported('if-statement other than a rejecting guard')
+            return f'(if {c} then {a} else {self.walk(rest, env, eff)})'
+        if k == 'DeclStmt':
+            env2 = dict(env); pre = ''
+            for d in s['inner']:
+                t = strip_q(d.get('type', {}).get('qualType', ''))
+                if d['kind'] == 'VarDecl' and (t in UNSIGNED or t in SIGNED) and 'inner' in d:
+                    v = self.fresh(d['name'])
+                    pre += f'let {v} := {self.expr(d["inner"][-1], env2)} in\n'
+                    env2[d['name']] = v
+            return pre + self.walk(rest, env2, eff)
+        if k in ('CallExpr', 'CXXMemberCallExpr', 'ExprWithCleanups'):
+            c = self.strip(s)
+            if c.get('kind') in ('CallExpr', 'CXXMemberCallExpr'):
+                name = self.callee_name(c)
+                args = c['inner'][1:]
+                eff = dict(eff)
+                if name == 'memcpy' and len(args) == 3:
+                    eff['src_off'] = self.ptr_offset(args[1], env); eff['copy_len'] = self.expr(args[2], env)
+                elif name == 'setData' and len(args) == 2:
+                    eff['data_off'] = self.expr(args[0], env); eff['data_len'] = self.expr(args[1], env)
+            return self.walk(rest, env, eff)
+        if self._has_kind(s, ('ReturnStmt', 'WhileStmt', 'ForStmt', 'DoStmt', 'GotoStmt')):
+            raise Unsupported(f'{k} in a copy function')
+        return self.walk(rest, env, eff)
+
+    def translate_copy(self, fname):
+        self.fields_as_params = True
+        self.pure = True
+        n = self.node
+        env = {}; plist = []
+        for p_ in [c for c in n.get('inner', []) if c['kind'] == 'ParmVarDecl']:
+            pn = coq_ident(p_.get('name', 'arg'))
+            if '*' in p_['type']['qualType']:
+                env[p_.get('name', pn)] = None
+                continue
+            env[p_.get('name', pn)] = pn; plist.append(pn)
+        body = [c for c in n.get('inner', []) if c['kind'] == 'CompoundStmt'][0]
+        txt = self.walk([body], env, {})
+        args = ''.join(f' ({p_} : Z)' for p_ in plist) + ''.join(f' ({p_} : Z)' for p_, _ in self.extra_params)
+        return f'Definition {fname}{args} : option (list Z) :=\n{txt}.\n'
+
+
 class LoopRound:
     """Control skeleton of a worker thread's loop `while (guard) { body }`: one round as a function
          round (ex : bool) (cs : list bool) : round_outcome
@@ -855,7 +949,19 @@ def main():
         parts.append(f'(* ---- one round of the loop of {cls}::{method} (exit flag {flag}) ---- *)\n')
         parts.append(lr.translate(f'{cls}_{coq_ident(method)}'))
 
+    def do_copy(cls, method):
+        m = None
+        for doc in tr.ast(f'{cls}::{method}', ['rs_driver/api/lidar_driver.hpp']):
+            if doc['kind'] == 'CXXMethodDecl' and doc.get('name') == method and any(x['kind'] == 'CompoundStmt' for x in doc.get('inner', [])):
+                m = doc
+        if m is None:
+            raise Unsupported(f'{cls}::{method} not found')
+        f = CopyFn(tr, cls, m, [], False)
+        parts.append(f'(* ---- sizes checked and copied by {cls}::{method} ---- *)\n')
+        parts.append(f.translate_copy(f'{cls}_{coq_ident(method)}_copy'))
+
     I = 'rs_driver/driver/input/'
+    jobs += [('InputRaw_feedPacket', lambda: do_copy('InputRaw', 'feedPacket'))]
     jobs += [
         ('LidarDriverImpl_processPacket', lambda: do_loop('LidarDriverImpl', 'processPacket', 'rs_driver/driver/lidar_driver_impl.hpp', 'to_exit_handle_',
                                                           ['popWait', 'get', 'internalProcessPacket'])),
